@@ -1,12 +1,14 @@
 import Spdc.Real.PMType
 import Spdc.Real.Fixpoint
+import Spdc.Real.ComposeAutoLemmas
 /-!
 # C16 — config ⇄ setup round trip, "auto" = explicit optimum, names parse
 
 Property theorems only.
 -/
 namespace Spdc.Props.C16
-open Spdc Spdc.PM Spdc.Cfg Spdc.Outcome
+open Spdc Spdc.Cfg Spdc.Outcome
+open Spdc.PM hiding Setup Beam twoPi sec cLight
 
 /-! ## T4 — string forms -/
 
@@ -235,5 +237,65 @@ example : (defaultConfig : Config ℝ) =
        signalPhiDeg := none, signalThetaDeg := some 0.0, signalThetaExternalDeg := none,
        signalWaistUm := 100.0, signalWaistPositionUm := none, idler := none, poling := none,
        deffPmPerVolt := 1.0 } : RawConfig ℝ).fill := rfl
+
+/-! ## composed model
+
+Above, the numeric sub-routines are an arbitrary bundle `ext`.  `Compose.composedExt`
+(`Spdc/Model/ComposeAuto.lean`) is the bundle in which every routine is computed by the composed
+model from the configuration's own numbers: Snell inverse and the three optimisers through the
+modelled Nelder–Mead (`NM1D.run`) with cost closures built from the composed `Δk` (Sellmeier →
+Fresnel → beams → optimum idler → wave vectors), optimum idler, optimal waist position.
+`Compose.fromConfig` turns a configuration into a primitive composed setup with nothing taken from
+the real crate. -/
+
+/-- composed model: `fromConfig` is, by definition, `try_as_spdc` run with the composed routines
+followed by the adapter to the primitive record -/
+theorem compose_fromConfig_refines (cfg : Config ℝ) :
+    Compose.fromConfig cfg = (tryAsSpdc cfg Compose.composedExt).map (Compose.toCompose cfg) ∧
+    Compose.jsiFromConfig cfg = fun divs ωs ωi =>
+      ((tryAsSpdc cfg Compose.composedExt).map (Compose.toCompose cfg)).bind fun S =>
+        Compose.jsi S divs ωs ωi := ⟨rfl, rfl⟩
+
+/-- composed model, T3 with the concrete routines: every `"auto"` field of the setup that the
+composed `try_as_spdc` produces is the value of the composed optimiser on the setup assembled so far —
+the crystal angle is the Nelder–Mead minimiser of the composed `|Δk_z(θ)|` started at `(π/6, π/6+1)`
+on the crystal with the placeholder angle, the poling period that of `|Δk_z(Λ)|` computed before the
+angle step, the idler the optimum idler on the final crystal and poling, the waist positions
+`−L/(2 n_z)` with the composed index.  (The wavelength guard inside the composed routines has
+passed, so they are the bare optimisers.) -/
+theorem compose_auto_is_explicit (cfg : Config ℝ) (s : Setup ℝ) (h : Compose.trySpdc cfg = .ok s) :
+    (cfg.crystal.thetaDeg.isAuto = true →
+      Compose.optimumThetaB (Compose.carrier cfg.crystal.toSetup) (Compose.beamOfCfg s.signal)
+        (Compose.beamOfCfg s.pump) = .ok s.crystal.theta) ∧
+    (cfg.idler = .auto →
+      (Compose.optimumIdlerB (Compose.carrier s.crystal) (Compose.beamOfCfg s.signal)
+        (Compose.beamOfCfg s.pump) (Compose.ppDKofCfg s.pp)).map Compose.cfgOfBeam = .ok s.idler) ∧
+    (cfg.signal.waistPositionUm = .auto →
+      s.signalWaistPos = Compose.optimalWaistPositionAt (Compose.carrier s.crystal) s.signal.wavelength
+        (Compose.polIndex s.signal.pol)) ∧
+    (idlerWaistCfg cfg = .auto →
+      s.idlerWaistPos = Compose.optimalWaistPositionAt (Compose.carrier s.crystal) s.idler.wavelength
+        (Compose.polIndex s.idler.pol)) ∧
+    (∀ apod, cfg.poling = .config .auto apod →
+      ∃ per, Compose.optimumPolingPeriodB (Compose.carrier cfg.crystal.toSetup)
+          (Compose.beamOfCfg s.signal) (Compose.beamOfCfg s.pump) = .ok per ∧
+        s.pp = Poling.new per (Apod.ofCfg apod)) := by
+  have h' : tryAsSpdc cfg Compose.composedExt = .ok s := h
+  obtain ⟨h1, h2, h3, h4, h5⟩ := auto_is_explicit cfg Compose.composedExt s h'
+  obtain ⟨signal, pp, c1, idler, iwp, swp, _, hg, _, _, _, _, _, hs⟩ := tryAsSpdcG_ok_inv h'
+  have hguard : lsLeLp s.signal s.pump = false := by rw [hs]; exact hg rfl
+  refine ⟨?_, h2, ?_, ?_, ?_⟩
+  · intro ha
+    have := h1 ha
+    simpa [Compose.composedExt, hguard] using this
+  · intro hw
+    have := h3 hw
+    simpa [Compose.composedExt] using this.symm
+  · intro hw
+    have := h4 hw
+    simpa [Compose.composedExt] using this.symm
+  · intro apod hp
+    obtain ⟨per, hper, hpp⟩ := h5 apod hp
+    exact ⟨per, by simpa [Compose.composedExt, hguard] using hper, hpp⟩
 
 end Spdc.Props.C16
